@@ -482,13 +482,14 @@ func scopeGen() []*SrcPkg {
 		{"M(x %[1]s) %[1]s", "param+result"}, {"M(xs []%[1]s) map[string]%[1]s", "slice,mapval"},
 		{"M(b Box[%[1]s]) @{~/b/foo}.G[%[1]s]", "generic-inst"}, {"M(f func(%[1]s) %[1]s, rest ...%[1]s)", "func,variadic"},
 		{"M(%[1]s) (%[1]s, error)", "unnamed"},
+		{"M(b @{~/b/foo}.G[@{~/b/foo}.G[@{~/a/foo}.T]], t %[1]s) Box[Box[%[1]s]]", "nested-inst"},
 	}
 	k := 0
 	for _, sp := range spellings {
 		for _, c := range constraints {
 			for ui, u := range uses {
 				// full product only for the canonical spelling; other spellings use the first two uses
-				if sp != "T" && ui > 1 && ui != 4 {
+				if sp != "T" && ui > 1 && ui != 4 && !(ui == 5 && sp == "Key") {
 					continue
 				}
 				if (sp == "mock" || sp == "sync") && (c.tag != "any" || ui > 0) {
@@ -744,4 +745,10 @@ func scopeMirror() ([]*SrcPkg, []*Case) {
 		}
 	}
 	return pkgs, cases
+}
+
+// scopeSrcSync: a source package that is itself called sync.
+func scopeSrcSync() []*SrcPkg {
+	return []*SrcPkg{{Dir: "s/srcsync_0", Name: "sync", Files: []SrcFile{{Name: "l.go", Decls: "type Locker2 interface{ Lock(l Loc) Loc; Unlock() }\n\ntype Plain interface{ P(int) string }\n\ntype Dep interface{ D(@{~/a/foo}.T) }\n"}},
+		Ifaces: []IfaceCase{{Name: "Locker2", Scope: "S-srcsync", Tags: []string{"srcpkg:sync"}}, {Name: "Plain", Scope: "S-srcsync", Tags: []string{"srcpkg:sync"}}, {Name: "Dep", Scope: "S-srcsync", Tags: []string{"srcpkg:sync"}}}}}
 }
